@@ -1155,6 +1155,11 @@ func (l *LineWrapper) wrapNextLine(config lineConfig) (done bool) {
 				return false
 			}
 		}
+		if !l.scratch.hasBest() && !config.truncating {
+			// no grapheme boundary can be used before the end of the segment (it lies inside a
+			// grapheme cluster): try the next segment rather than returning an empty line
+			continue
+		}
 		return false
 	}
 	return true
